@@ -132,4 +132,50 @@ def Thread.firstLive (t : Thread) : Option (Id × Comment) :=
     | some (some c) => some (id, c)
     | _ => none
 
+
+/-! ### the stand-alone `Thread` COB (`impl Cob for Thread`): `Thread::action`, `Thread::op`
+
+Only used for the atomicity lemma `op_atomic_thread` (C06); it has no harness of its own — the thread
+operations above are exercised through the Issue and Patch harnesses. -/
+
+inductive TAction
+  | comment (body : Nat) (replyTo : Option Id)
+  | edit (id : Id) (body : Nat)
+  | redact (id : Id)
+  | react (to : Id)
+  deriving DecidableEq, Repr
+
+structure TOp where
+  id : Id
+  author : Actor
+  /-- `op.identity.is_some()` (`Error::MissingIdentity` otherwise) -/
+  hasIdentity : Bool
+  actions : List TAction
+  deriving DecidableEq, Repr
+
+/-- `Thread::action`. -/
+def Thread.action (t : Thread) (a : TAction) (entry : Id) (author : Actor) : Except Err Thread :=
+  match a with
+  | .comment body replyTo => t.comment entry author body replyTo
+  | .edit id body => t.edit entry author id body
+  | .redact id => t.redact entry id
+  | .react to => t.react entry to
+
+def Thread.applyActions (entry : Id) (author : Actor) : Thread → List TAction → Except Err Thread
+  | t, [] => .ok t
+  | t, a :: as =>
+    match t.action a entry author with
+    | .ok t' => Thread.applyActions entry author t' as
+    | .error e => .error e
+
+/-- `Thread::op` (atomic: applied to a clone, assigned back on success). -/
+def Thread.op (t : Thread) (o : TOp) : Except Err Thread :=
+  if !o.hasIdentity then .error .missingIdentity else Thread.applyActions o.id o.author t o.actions
+
+/-- One evaluator step: a rejected entry leaves the thread unchanged. -/
+def Thread.step (t : Thread) (o : TOp) : Thread :=
+  match t.op o with
+  | .ok t' => t'
+  | .error _ => t
+
 end HeartwoodModel.Cob
